@@ -235,6 +235,11 @@ class Simple:
         )
 
     def forward_basis(self):
+        if approx_equal(self.start, 0):
+            # No accepting path at all: the forward space is {0} and its basis is
+            # empty.  (A zero vector in the basis makes `proj` divide by zero, and
+            # the loop below then never terminates.)
+            return np.zeros((0, self.dim))
         worklist = [self.start]
         basis = [self.start]
         while worklist:
